@@ -48,7 +48,7 @@ const qrRedirect = "qrcode/encoder.generateECBytes"
 
 func qrStubs() map[string]string {
 	return map[string]string{
-		"qrcode/encoder.generateECBytes":            "qrcode/encoder.verifStubEC",
+		"qrcode/encoder.generateECBytes":          "qrcode/encoder.verifStubEC",
 		"qrcode/decoder.(*Decoder).correctErrors": "qrcode/decoder.verifNoCorrect",
 	}
 }
